@@ -130,6 +130,7 @@ func genC09(seed int64, tier string) *Scenario {
 	if classes {
 		use.WriteString("---@type Cls0\nlocal c0 = nil\nprint(c0.fa0)\n")
 	}
+	hugeQuery := false
 	if r.Intn(3) == 0 {
 		// a table and an annotated class with more members than the hover / completion preview shows
 		// (PreviewFieldsNum, 30 by default): which members make it into the preview must not
@@ -143,6 +144,18 @@ func genC09(seed int64, tier string) *Scenario {
 		}
 		big.WriteString("}\n")
 		cls.WriteString("BigClsT = {}\n")
+		if r.Intn(2) == 0 {
+			// more symbols than workspace/symbol returns (200): the cut-off must not depend on the
+			// order in which the pool delivers the files
+			for t := 0; t < 3; t++ {
+				fmt.Fprintf(&big, "HugeTbl%d = {\n", t)
+				for k := 0; k < 80; k++ {
+					fmt.Fprintf(&big, "  hk%d_%02d = %d,\n", t, k, k)
+				}
+				big.WriteString("}\n")
+			}
+			hugeQuery = true
+		}
 		sc.Files = append(sc.Files, File{Path: "d0/big.lua", Data: Bytes(big.String() + cls.String())})
 		use.WriteString("print(BigTbl, BigTbl.k01)\n---@type BigCls\nlocal bigc = nil\nprint(bigc, bigc.f01)\n")
 		sc.Knobs["big"] = true
@@ -322,6 +335,9 @@ func genC09(seed int64, tier string) *Scenario {
 	sc.Ops = append(sc.Ops, Op{Kind: "req", Method: "completion", Path: "use.lua", Pos: &Pos{0, 2}})
 	sc.Ops = append(sc.Ops, Op{Kind: "req", Method: "documentSymbol", Path: "use.lua"})
 	sc.Ops = append(sc.Ops, Op{Kind: "req", Method: "workspaceSymbol", Arg: []string{"dup", "g1", "same", "Cls", "shared", "", "k", "f"}[r.Intn(8)]})
+	if hugeQuery {
+		sc.Ops = append(sc.Ops, Op{Kind: "req", Method: "workspaceSymbol", Arg: ""}, Op{Kind: "req", Method: "workspaceSymbol", Arg: "hk"})
+	}
 	other := sc.Files[r.Intn(len(sc.Files))].Path
 	sc.Ops = append(sc.Ops, Op{Kind: "req", Method: "documentSymbol", Path: other})
 
